@@ -169,7 +169,7 @@ pub fn worker_runs(
         // every fifth run: one hard I/O error somewhere in the middle, then the history goes on
         let hard_fault = (i % 5 == 2 && !chaos).then(|| {
             let mut fr = crate::rng::Rng::sub(seed, "mid-history-fault");
-            let calls = history.ops.iter().filter(|o| !matches!(o, Op::PlainFile { .. } | Op::MkDir { .. } | Op::Symlink { .. } | Op::HardLink { .. } | Op::Implicit { .. } | Op::SpecDir { .. } | Op::TopSymlink { .. } | Op::SbomLink { .. } | Op::TomlLink { .. } | Op::ExecDAlias { .. } | Op::ChmodLayer { .. } | Op::ChmodToml { .. } | Op::RewriteSource { .. } | Op::Restore { .. })).count().max(1);
+            let calls = history.ops.iter().filter(|o| !matches!(o, Op::PlainFile { .. } | Op::MkDir { .. } | Op::Symlink { .. } | Op::HardLink { .. } | Op::Implicit { .. } | Op::SpecDir { .. } | Op::TopSymlink { .. } | Op::SbomLink { .. } | Op::TomlLink { .. } | Op::ExecDAlias { .. } | Op::ChmodLayer { .. } | Op::ChmodToml { .. } | Op::CorruptToml { .. } | Op::RewriteSource { .. } | Op::Restore { .. })).count().max(1);
             (
                 1 + fr.usize(calls),
                 1 + fr.below(14) as i64,
